@@ -155,3 +155,18 @@ Theorem C17_ut_roundtrip_refuted :
     UT2time (map Z.of_nat [54;48;48;49;48;49;48;48;48;48;48;48;90]%nat) 0 = GtOk (t - 3155760000) 0 0.
 Proof. exact ut_roundtrip_refuted. Qed.
 Print Assumptions C17_ut_roundtrip_refuted.
+
+(* reading side of the fraction: up to nine fraction digits after the 14-digit
+   body come back exactly, with t (the writing side asn_time2GT_frac is modelled
+   and tied, not proved) *)
+Theorem C17_gt_frac_read : forall t fds lg, t_min <= t < t_max -> t <> -1 ->
+  digits_ok fds -> zlen fds <= 9 ->
+  GT2time_frac (gt_body (gmtime t) ++ 46 :: fds ++ [90]) lg = GtOk t (num fds) (zlen fds).
+Proof. exact gt_frac_read. Qed.
+Print Assumptions C17_gt_frac_read.
+
+(* the GeneralizedTime / UTCTime parser never reads past its buffer, any input *)
+Theorem C17_gt_no_oob : forall bs lg,
+  GT2time_frac bs lg <> GtOob /\ GT2time bs lg <> GtOob /\ UT2time bs lg <> GtOob.
+Proof. exact gt_no_oob. Qed.
+Print Assumptions C17_gt_no_oob.
